@@ -9,6 +9,8 @@ pub(crate) mod npo;
 mod public_input_tracker;
 
 pub use circuit_builder::CircuitBuilder;
+#[cfg(feature = "verif-hooks")]
+pub use circuit_builder::VerifSnapshot;
 pub use config::BuilderConfig;
 pub use errors::CircuitBuilderError;
 pub use expression_builder::ExpressionBuilder;
